@@ -248,8 +248,11 @@ static void check_loaded_route(Ctx &c, const Cfg &cfg0, const std::string &hist)
 // ---------------------------------------------------------------- transitions (depth 1)
 static void explore_cfg(Ctx &c, const Cfg &cfg){
     TasmanianSparseGrid g;
-    try{ make(g, cfg); }catch(std::exception &e){ report(c, g_prop + ":make-throws:" + std::string(IO::getRuleString(cfg.rule)), cfg, "make", e.what()); return; }
-    if (g.getNumPoints() > 2500){ c.skipped++; return; }
+    // a depth beyond a hard-coded / custom table is documented to throw std::runtime_error: such configurations are outside the lattice
+    auto table_limit = [](const std::string &w){ return w.find("hardcoded") != std::string::npos || w.find("are provided") != std::string::npos || w.find("table ends") != std::string::npos; };
+    try{ make(g, cfg); }catch(std::runtime_error &e){ if (table_limit(e.what())){ c.skipped++; return; } report(c, g_prop + ":make-throws:" + std::string(IO::getRuleString(cfg.rule)), cfg, "make", e.what()); return; }
+    catch(std::exception &e){ report(c, g_prop + ":make-throws:" + std::string(IO::getRuleString(cfg.rule)), cfg, "make", e.what()); return; }
+    if (g.getNumPoints() > ((cfg.fam == F_FOURIER) ? 800 : 2500)){ c.skipped++; return; }
     c.states++;
     check_state(c, cfg, g, "make");
     if (g_prop == "C03"){ try{ check_loaded_route(c, cfg, "make"); }catch(std::exception &e){ report(c, "C03:loaded-route-throws:" + std::string(IO::getRuleString(cfg.rule)), cfg, "make load(space)", e.what()); } }
@@ -258,7 +261,8 @@ static void explore_cfg(Ctx &c, const Cfg &cfg){
     if (cfg.depth <= 3){
         try{
             TasmanianSparseGrid h; make(h, cfg); h.updateGrid(cfg.depth + 1, cfg.type, cfg.aw); c.transitions++;
-            if (h.getNumPoints() <= 2500){ c.states++; check_state(c, cfg, h, "make update(depth+1)"); }
+            if (h.getNumPoints() <= ((cfg.fam == F_FOURIER) ? 800 : 2500)){ c.states++; check_state(c, cfg, h, "make update(depth+1)"); }
+        }catch(std::runtime_error &e){ if (!table_limit(e.what())) report(c, g_prop + ":update-throws:" + std::string(IO::getRuleString(cfg.rule)), cfg, "make update(depth+1)", e.what()); else c.skipped++;
         }catch(std::exception &e){ report(c, g_prop + ":update-throws:" + std::string(IO::getRuleString(cfg.rule)), cfg, "make update(depth+1)", e.what()); }
     }
     // transition 2: (C02) load, update(depth+1), load => merged grid with values; integrate = weights.values
@@ -274,6 +278,7 @@ static void explore_cfg(Ctx &c, const Cfg &cfg){
                 h.loadNeededValues(model_values(kind, h.getNeededPoints(), cfg.dims, 2)); c.transitions++; c.states++;
                 check_state(c, cfg, h, "make(outs=2) load update(depth+1) load");
             }
+        }catch(std::runtime_error &e){ if (!table_limit(e.what())) report(c, "C02:history-throws:" + std::string(IO::getRuleString(cfg.rule)), cfg, "make(outs=2) load update load", e.what()); else c.skipped++;
         }catch(std::exception &e){ report(c, "C02:history-throws:" + std::string(IO::getRuleString(cfg.rule)), cfg, "make(outs=2) load update load", e.what()); }
     }
 }
@@ -319,7 +324,7 @@ static std::vector<Cfg> unit_cfgs(const Unit &u){
     if (d == 1){ W1 = {{}}; Wc = {{}, {2, 1}}; LIM = {{}, {2}}; }
     else if (d == 2){ W1 = {{}, {1,2}, {2,1}}; Wc = {{}, {1,2,1,0}, {2,1,0,1}}; LIM = {{}, {1,-1}, {2,1}, {0,3}}; }
     else { W1 = {{}, {1,2,3}}; Wc = {{}, {1,2,3,1,0,1}}; LIM = {{}, {1,-1,2}}; }
-    int maxdepth = (d == 1) ? (th ? 6 : 5) : (d == 2 ? (th ? 4 : 3) : 3);
+    int maxdepth = (d == 1) ? (th ? 6 : 5) : (d == 2 ? (th ? 4 : 3) : 2);
     if (u.rule == rule_customtabulated) maxdepth = std::min(maxdepth, (d == 1) ? 5 : 3);
     for(auto type : all_types()) for(int depth=0; depth<=maxdepth; depth++) for(size_t iw=0; iw<W1.size(); iw++) for(auto &lim : LIM) for(int tr : trs) for(auto &ab : AB){
         Cfg c; c.fam = u.fam; c.rule = u.rule; c.dims = d; c.outs = 0; c.depth = depth; c.type = type;
